@@ -866,6 +866,15 @@ def gen_misc_entry(tier, r):
     return scs
 
 
+def pad_value(host, total, make):
+    """A JSON value for PUT /characteristics whose complete request to `host` is exactly `total` bytes long (or None)."""
+    for k in range(max(0, total - 400), total):
+        v = make(k)
+        if len(ref_render("PUT", b"/characteristics", host, "json", G.ref_compact(v))) == total:
+            return v
+    return None
+
+
 def gen_scenarios(tier, r):
     scs = []
     # grid: every host x mode with a fixed op list touching every API once
@@ -886,6 +895,28 @@ def gen_scenarios(tier, r):
     scs += gen_pollers(tier, r)
     scs += gen_concurrent(tier, r)
     scs += gen_misc_entry(tier, r)
+    # large reads (a bridge with many accessories): one read of 150 / 200 / 480 / 1000 ids - ONE request, ids joined by commas
+    big = [150, 200, 480] if tier == "quick" else [150, 200, 480, 1000, 165, 330, 2000]
+    for j, n_ids in enumerate(big):
+        hk, host = HOSTS[(3 * j) % len(HOSTS)]
+        ids = [(1 + k // 40, 10 + k % 40 + r.choice([0, 1000])) for k in range(n_ids)]
+        ops = [("list_accessories",), ("get_characteristics", ids, r.choice([list, set]))]
+        if j == 0 or tier == "thorough":
+            ops += [("hold", "reads", set, list(ids[:170])), ("call_held", "get_characteristics", "reads"),
+                    ("mutate", "reads", "add", ids[170:175]), ("call_held", "get_characteristics", "reads")]
+        scs.append(single("secure", host, 5001, ops))
+    # requests whose total length is an exact multiple of the 1024-byte frame size (and the neighbours)
+    for j, (hk, host) in enumerate((HOSTS[1], HOSTS[4], HOSTS[8])):
+        ops = [("list_accessories",)]
+        for total in ((1024, 2048, 3072) if (tier == "quick" and j) else (1024, 2048, 3072, 1023, 1025, 4096)):
+            v = pad_value(host, total, lambda k: {"v": "a" * k})
+            if v is not None:
+                ops.append(("put_json", "/characteristics", v))
+            w = pad_value(host, total, lambda k: {"characteristics": [{"aid": 1, "iid": 9, "value": "b" * k}]})
+            if w is not None:
+                ops.append(("put_characteristics", [(1, 9, w["characteristics"][0]["value"])]))
+        scs.append(single("secure", host, 5001, ops))
+        scs.append(single("plain", host, 5001, [op for op in ops if op[0] == "put_json"]))
     # payloads the JSON encoder refuses, given to the API on a live object: must raise, nothing written; the next call is fine
     for hk, host in (HOSTS[0], HOSTS[5]):
         scs.append(single("secure", host, 5001, [
@@ -1115,7 +1146,7 @@ def pv_shape(i, ex):
 RAW_BODY_APIS = ("put", "post", "request", "post_tlv", "pair_verify")   # caller supplies the body bytes
 
 
-def oracle(raw: bytes, host: str, json_encoded: bool = True):
+def oracle(raw: bytes, host: str, json_encoded: bool = True, read_request: bool = False):
     """Property oracle on one request's bytes: None if canonical, else a reason slug.
     The compact-JSON rule applies to bodies the library's encoder produced, not to caller-supplied bytes."""
     p, why = G.strict_parse(raw)
@@ -1123,6 +1154,8 @@ def oracle(raw: bytes, host: str, json_encoded: bool = True):
         return why
     if p["host"] != host.encode():
         return "host-value"
+    if read_request and G.strict_read_url(p["target"]) is None:
+        return "read-url-form"        # not "/characteristics?id=" aid.iid *( "," aid.iid ): stray/trailing comma, spaces ...
     if p["kind"] == "json" and json_encoded:
         _, why = G.strict_json(p["body"])
         if why:
@@ -1300,6 +1333,7 @@ def run(ctx):
     # --- per-record checks that need no model answer
     n_req = 0
     for si, (sc, res) in enumerate(zip(scs, results)):
+        call_tail = {}          # (connection, transport call index) -> the request that ENDED in that call
         if res["errors"]:
             add("harness:" + res["errors"][0], "accessory could not decode the encrypted frames: " + res["errors"][0], False,
                 stream="req", hosts=sc["hosts"], scenario_json=enc(sc))
@@ -1367,7 +1401,18 @@ def run(ctx):
             for qi, (cap, ex) in enumerate(zip(rec["requests"], exs)):
                 n_req += 1
                 peer = cap.host or rec["host"]
-                why = oracle(cap.raw, peer, api not in RAW_BODY_APIS and not (api == "pair_verify" and qi < 2))
+                why = oracle(cap.raw, peer, api not in RAW_BODY_APIS and not (api == "pair_verify" and qi < 2),
+                             read_request=(api == "get_characteristics"))
+                # "nothing else": the transport call that carried this request must not carry bytes beyond it
+                first_call = (cap.conn, cap.calls[0]) if cap.calls else None
+                if first_call is not None and first_call in call_tail:
+                    add(f"extra-bytes-in-call:{'secure' if cap.secure else 'plain'}:{api}",
+                        f"{api}: the transport call that carried a complete request also carried further bytes that form "
+                        f"{'a second copy of it' if cap.raw == call_tail[first_call] else 'another request'} "
+                        f"(request of {len(call_tail[first_call])} bytes{', an exact multiple of 1024' if len(call_tail[first_call]) % 1024 == 0 else ''})",
+                        True, **replay(sc, rec, qi, first_request_len=len(call_tail[first_call])))
+                if cap.calls:
+                    call_tail[(cap.conn, cap.calls[-1])] = cap.raw
                 if why == "host-value":
                     sent = sent_host(cap)
                     if sent != peer and sent in rec["peers"][:-1]:
